@@ -61,6 +61,7 @@ func regCmd(args []string) error {
 	if catMeta["kind"] == "rand" {
 		cs := int64(catMeta["seed"].(float64))
 		cat = randCatalog(rand.New(rand.NewSource(cs*7919+1)), 4, 4, 9, 12, catMeta["big"] == true)
+		cat.addPhantoms()
 	} else {
 		cat = mcCatalog()
 	}
